@@ -6,6 +6,8 @@
 -/
 import YowsupVerif.Lemmas.Conc
 import YowsupVerif.Gen.ConcCfg
+import YowsupVerif.Lemmas.SendBuf
+import YowsupVerif.Gen.SendBufCfg
 namespace Yow.Conc
 
 /-- in the current source a sender holds one lock from before the encryption until after the payload write, and the
@@ -44,3 +46,30 @@ theorem C11_locks_are_needed :
   ⟨without_outer_lock_misordered, without_locks_torn⟩
 
 end Yow.Conc
+
+namespace Yow.SendBuf
+
+/-- in the current source the dispatcher's send buffer is appended to, sent and cut under one lock, by the sending threads and
+    by the asyncore loop thread alike (observed on a real dispatcher over a socket pair; Gen/SendBufCfg.lean) -/
+theorem C11_socket_buffer_locked : Yow.Gen.sendBufCfg = { locked := true } := by decide
+
+/-- Below the network layer: for every schedule of the sending threads and the asyncore loop thread, the bytes handed to the
+    dispatcher are on the socket or still buffered, each exactly once, in order; when both have finished, the socket carries
+    exactly the frames; nothing deadlocks. -/
+theorem C11_socket_bytes_exactly_once (frames : List (List Nat)) (flushes : Nat) (sched : List Nat) :
+    let s := run (init Yow.Gen.sendBufCfg frames flushes) sched
+    (∃ k, k ≤ s.buf.length ∧ s.socket ++ s.buf.drop k = s.appended) ∧
+    (finished s = true → s.socket = frames.flatten ∧ s.buf = []) ∧
+    (finished s = false → ∃ i, step s i ≠ s) := by
+  rw [C11_socket_buffer_locked]
+  exact ⟨socket_plus_buffer frames flushes sched, fun h => finished_socket_exact frames flushes sched h,
+         fun h => progress frames flushes sched h⟩
+
+/-- Sensitivity: without the lock the loop thread and a sender put the same bytes on the socket twice. -/
+theorem C11_unlocked_buffer_duplicates :
+    ∃ sched, let s := run (init { locked := false } [[1, 2, 3], [4, 5]] 1) sched
+      finished s = true ∧ s.socket ≠ [1, 2, 3, 4, 5] :=
+  unlocked_duplicates
+
+end Yow.SendBuf
+
